@@ -26,7 +26,9 @@ ASSUME = [
     "so exhaustive domains are over equality patterns; look-alike contents are exercised by the random domain D3",
     "the driver's tokeniser (count-driven, no judgement) and its rendering of <<id, nl>> lines to bytes are trusted",
     "file names in the header are short printable names without newlines",
-    "the consumer in testscript/cmd.go (cmp failure output) is covered by C01, not here",
+    "the consumer in testscript/cmd.go: the diff a failing cmp / cmpenv / cmp stdout logs is cut out of the real failure log "
+    "(between the echoed command and the FAIL line) and replayed like a direct Diff call against the texts that were compared "
+    "(file2 after expansion for cmpenv); a log the driver cannot read is drift; the verdict of cmp itself is C01's",
     "coverage-guided fuzzing named in the quantifier is replaced by exhaustive small domains plus seeded random long texts",
 ]
 
@@ -236,16 +238,27 @@ def run_domains(ctx, drv, pool, selfbug=None, small=False):
     s3, _ = split(ctx, t3, tag + "-d3", max(2, nsh // 2), d1=False)
     shards += s3
 
+    # D4: the consumer (testscript cmp / cmpenv): the diff cut out of the real failure log
+    n_d4 = 0
+    if not selfbug:
+        t4 = ctx.path(tag, "d4.ndjson")
+        r = drive("consumer", t4, ["-count", str(40 if small else (240 if quick else 4000)), "-tmp", ctx.mkdir(tag, "consumer")])
+        n_d4 = r["extra"]["consumer_records"]
+        if n_d4 == 0:
+            raise NoVerdict("the consumer mode produced no record (no failing cmp logged a diff the driver could cut out)")
+        s4, _ = split(ctx, t4, tag + "-d4", 2, d1=False)
+        shards += s4
+
     shards.sort(key=lambda s: -s.events)
     reports, states, trans = validate(ctx, shards, pool)
-    total = d1size + n_d2 + n_d3
+    total = d1size + n_d2 + n_d3 + n_d4
     events = sum(d["counters"].get("events", 0) for d in drv_results)
     nbad = len([x for x in reports if x["t"] == "BAD"])
     # one state per record plus one per replayed event; a rejected diff stops early
     if states > total + events or states < total or (nbad == 0 and states != total + events):
         raise NoVerdict("trace validation visited %d states for %d records with %d events (%d rejected)"
                         % (states, total, events, nbad))
-    return dict(n=n, d1doms=d1doms, d1size=d1size, n_d2=n_d2, n_d3=n_d3, b=b, sites=sites, sample=sample, reports=reports,
+    return dict(n=n, d1doms=d1doms, d1size=d1size, n_d2=n_d2, n_d3=n_d3, n_d4=n_d4, b=b, sites=sites, sample=sample, reports=reports,
                 states=states, trans=trans, drv=drv_results, total=total)
 
 
@@ -363,11 +376,11 @@ def check(ctx):
               "D1 = %s, texts with and without final newline (enumeration certified "
               "by MC_DiffDomain, each record checked against PairAt by TLC); D2 = %d pairs emitted by TLC: backbone of %d unique "
               "lines, all edit choices with <= %d sites x {del, ins, rep, dup}%s x 3 final-newline variants; D3 = %d seeded random "
-              "pairs (duplicate lines, diff-syntax look-alike contents, files up to ~1800 lines). non-trivial = the two texts "
+              "pairs (duplicate lines, diff-syntax and printf-verb look-alike contents, files up to ~1800 lines); D4 = %d diffs logged by failing cmp / cmpenv / cmp stdout lines of real scripts. non-trivial = the two texts "
               "differ (a diff must be produced); distinct = distinct (old, new) byte pairs, counted by the driver"
               % (" and ".join("all %d ordered pairs of texts of <= %d lines over %d line values" % (sz, nn, vv)
                               for vv, nn, sz in r["d1doms"]), r["n_d2"], r["b"], r["sites"],
-                 " + %d random choices with %d sites" % (r["sample"], r["sites"] + 1) if r["sample"] else "", r["n_d3"])),
+                 " + %d random choices with %d sites" % (r["sample"], r["sites"] + 1) if r["sample"] else "", r["n_d3"], r["n_d4"])),
         samples=samples[:6], exhaustive=True, exhaustive_pairs=r["d1size"] + r["n_d2"],
         traces_validated_against_impl=r["total"], machine_states_model_checked=mc_states,
         trace_states=r["states"], diffs_rejected=len(bad), counters=counters, drift=drift[:10],
